@@ -166,6 +166,13 @@ func judgeScan(text []byte) *eng.Fail {
 		if r.K == ref.TIdent && t.value != r.Text {
 			return eng.F("C14/diff-ident", "token %d: identifier text %q, expected %q", i, t.value, r.Text)
 		}
+		if r.K == ref.TNum && !r.Err {
+			dv, ok1 := ref.ParseDec(t.value)
+			dr, ok2 := ref.ParseDec(r.Val)
+			if ok2 && (!ok1 || !dv.Equal(dr)) {
+				return eng.F("C14/diff-number", "token %d: number text %q does not denote %s", i, t.value, r.Val)
+			}
+		}
 		if r.K == ref.TStr && !r.ValU && t.value != r.Val {
 			return eng.F("C14/diff-string", "token %d: string value %q, expected %q", i, t.value, r.Val)
 		}
